@@ -1252,6 +1252,32 @@ func Generate(r *rand.Rand, profile string, concurrent bool, av Avoid) *Plan {
 		ops = append(ops, frag...)
 		p.Ops = append(ops, p.Ops[at:]...)
 	}
+	// Directed concurrent fragment: two channels with equal load, unresponsive
+	// detection on; calls are picked on a superseded and on the latest picker (their
+	// channel lists may be in different orders) while one call of each channel
+	// completes successfully - four parties that touch both channels' bookkeeping
+	// at once, several rounds. Whatever they lock, in whatever order: all return.
+	if concurrent && (profile == "chaos" || profile == "load" || profile == "refresh") && !p.Cfg.RR && r.IntN(5) == 0 && len(p.Ops) > 4 {
+		p.Cfg.Min, p.Cfg.Max, p.Cfg.WM = 2, 2, 50
+		if p.Cfg.UMs == 0 || p.Cfg.UCalls == 0 || p.Cfg.UMs > 1000 {
+			p.Cfg.UMs, p.Cfg.UCalls = uint32(10*(1+r.IntN(5))), uint32(1+r.IntN(2))
+		}
+		st := func() int { return r.IntN(4) }
+		frag := []Op{{K: OpConn, A: 0, B: ConnProgress}, {K: OpConn, A: 0, B: ConnProgress}, {K: OpConn, A: 1, B: ConnProgress}, {K: OpConn, A: 1, B: ConnProgress}, {K: OpSteps, A: 60}}
+		for c := 0; c < 4; c++ {
+			frag = append(frag, Op{K: OpPick, B: MPlain, N: 30}) // two calls in flight on each channel
+		}
+		frag = append(frag, Op{K: OpConn, A: 0, B: ConnFail, N: 30}, Op{K: OpConn, A: 0, B: ConnProgress, N: 30}, Op{K: OpConn, A: 0, B: ConnProgress, N: 30},
+			Op{K: OpConn, A: 1, B: ConnFail, N: 30}, Op{K: OpConn, A: 1, B: ConnProgress, N: 30}, Op{K: OpConn, A: 1, B: ConnProgress, N: 30}, Op{K: OpSteps, A: 60})
+		for round := 0; round < 3+r.IntN(3); round++ {
+			frag = append(frag, Op{K: OpPick, B: MPlain, C: 1 + r.IntN(3), N: st()}, Op{K: OpPick, B: MPlain, N: st()},
+				Op{K: OpDone, A: 0, B: OutOK, N: st()}, Op{K: OpDone, A: 1, B: OutOK, N: st()}, Op{K: OpSteps, A: 30})
+		}
+		at := 1
+		ops := append([]Op{}, p.Ops[:at]...)
+		ops = append(ops, frag...)
+		p.Ops = append(ops, p.Ops[at:]...)
+	}
 	// Directed concurrent fragment: two or three READY channels, all one stream
 	// below the watermark, room to grow, nothing connecting; then calls on a
 	// superseded picker (as good as the latest) and on the latest one at once: two
@@ -1449,6 +1475,12 @@ func Generate(r *rand.Rand, profile string, concurrent bool, av Avoid) *Plan {
 			}
 			p.Suffix = append(p.Suffix, o)
 		}
+	}
+	// Last of all (the fragments above size their rounds by unresponsive_calls): a
+	// detection threshold no history reaches - 2^31, 3*10^9 or 2^32-1 calls, legal
+	// uint32 values. The same operations follow; no refresh may ever start.
+	if (profile == "refresh" && r.IntN(20) == 0 || profile == "chaos" && r.IntN(40) == 0) && p.Cfg.UMs > 0 && p.Cfg.UCalls > 0 {
+		p.Cfg.UCalls = []uint32{1 << 31, 3000000000, 1<<32 - 1}[r.IntN(3)]
 	}
 	return p
 }
